@@ -934,7 +934,7 @@ pub fn plan(prop: &str, tier: &str) -> Option<Plan> {
                 bounds = json!({"E5": "rayon stand-in: every script with <=3 splits and every fork order, for 12 parallel map calls at every state of a family of <=160 states (growth path to N=130 + post-deviation states; old tables of 1-8 groups), and 13 parallel set calls on every ordered pair of <=24 set states x 3 key-overlap patterns", "conformance": "the same bodies on the real rayon, thread pools of 1..16 threads (sampled; not the deciding step)"});
             } else {
                 for &hk in &HS4 {
-                    s.extend(mk("map", "u32", hk, 130, 400, 5, 4, "par", 1500.0));
+                    s.extend(mk("map", "u32", hk, 130, 200, 5, 6, "par", 1500.0));
                 }
                 s.extend(mk("map", "tk", H_GOOD, 64, 120, 4, 2, "par", 1500.0));
                 s.extend(mk("set", "u32", H_GOOD, 64, 60, 4, 8, "par", 1500.0));
@@ -942,7 +942,7 @@ pub fn plan(prop: &str, tier: &str) -> Option<Plan> {
                 s.extend(mk("set", "tk", H_GOOD, 33, 24, 3, 2, "par", 1500.0));
                 s.extend(mk("map", "u32", H_GOOD, 130, 300, 0, 4, "parreal", 1500.0));
                 s.extend(mk("set", "u32", H_GOOD, 40, 20, 0, 4, "parreal", 1500.0));
-                bounds = json!({"E5": "every script with <=5 splits (maps) / <=4 (sets) and every fork order; families of <=400 map states (4 hashers) and <=60 set states (all ordered pairs x 3 overlap patterns)", "conformance": "real rayon, pools of 1..16 threads"});
+                bounds = json!({"E5": "every script with <=5 splits (maps) / <=4 (sets) and every fork order; families of <=200 map states (4 hashers) and <=60 set states (all ordered pairs x 3 overlap patterns)", "conformance": "real rayon, pools of 1..16 threads"});
             }
         }
         "C16" => {
